@@ -6,6 +6,14 @@ from decimal import Decimal
 
 from .. import core, kit, model
 
+
+def _r(x):
+    """repr for a case record: an int magnitude with more digits than str() may write must not take the check down"""
+    try:
+        return repr(x)
+    except Exception as e:
+        return f"<{type(x).__name__} whose repr raised {type(e).__name__}>"
+
 ID = "C03"
 LEVEL = "exploration"
 RULE = ("post-conditions on the real Quantity operators over the table operator x left magnitude type x right operand "
@@ -84,7 +92,7 @@ def run(ctx):
         def cond(a, k, result, exc):
             self, other = a[0], a[1]
             od, odec = other_dim_and_dec(other)
-            case = {"op": label, "self": repr(self), "other": repr(other)}
+            case = {"op": label, "self": _r(self), "other": _r(other)}
             if exc is not None:
                 ctx.count(f"postcondition_saw_raise/{label}/{type(exc).__name__}")
                 return
@@ -103,7 +111,7 @@ def run(ctx):
     def post_addsub(label):
         def cond(a, k, result, exc):
             self, other = a[0], a[1]
-            case = {"op": label, "self": repr(self), "other": repr(other)}
+            case = {"op": label, "self": _r(self), "other": _r(other)}
             if not isinstance(other, Q):
                 return
             same = dim(self.unit) == dim(other.unit)
@@ -121,14 +129,14 @@ def run(ctx):
 
     def post_pow(a, k, result, exc):
         self, n = a[0], a[1]
-        case = {"op": "__pow__", "self": repr(self), "n": n}
+        case = {"op": "__pow__", "self": _r(self), "n": n}
         if exc is not None or not isinstance(n, int):
             return
         expect_quantity("__pow__", result, vec("pow", dim(self.unit), n=n), isinstance(self.magnitude, Decimal), case=case)
 
     def post_root(a, k, result, exc):
         self, n = a[0], a[1]
-        case = {"op": "root", "self": repr(self), "n": n}
+        case = {"op": "root", "self": _r(self), "n": n}
         want = vec("root", dim(self.unit), n=n) if isinstance(n, int) else None
         if exc is not None:
             ctx.count(f"postcondition_saw_raise/root/{type(exc).__name__}")
@@ -153,7 +161,7 @@ def run(ctx):
             if exc is not None:
                 return
             self = a[0]
-            expect_quantity(label, result, dim(self.unit), isinstance(self.magnitude, Decimal), left_unit=self.unit, case={"op": label, "self": repr(self)})
+            expect_quantity(label, result, dim(self.unit), isinstance(self.magnitude, Decimal), left_unit=self.unit, case={"op": label, "self": _r(self)})
         return cond
 
     def post_compare(label):
@@ -163,10 +171,10 @@ def run(ctx):
                 return
             ctx.count(f"postconditions/{label}")
             if exc is not None:
-                ctx.violation(f"C03:{label}:raised-{type(exc).__name__}", f"{self!r} {label} {other!r} raised {exc}", {"self": repr(self), "other": repr(other)})
+                ctx.violation(f"C03:{label}:raised-{type(exc).__name__}", f"{self!r} {label} {other!r} raised {exc}", {"self": _r(self), "other": _r(other)})
                 return
             if dim(self.unit) != dim(other.unit) and result is not NotImplemented and result is not False:
-                ctx.violation(f"C03:{label}:incommensurable-compared", f"{self!r} {label} {other!r} returned {result!r}", {"self": repr(self), "other": repr(other)})
+                ctx.violation(f"C03:{label}:incommensurable-compared", f"{self!r} {label} {other!r} returned {result!r}", {"self": _r(self), "other": _r(other)})
         return cond
 
     kt = env.kit
@@ -342,6 +350,44 @@ def run(ctx):
                 ctx.count("type_errors_from_unsupported_operand_kinds")
         except Exception as e:  # e.g. an internal error of the conversion planner: C07's business, not C03's
             ctx.count(f"other_exceptions_from_the_library/{type(e).__name__}")
+
+    # ---- int magnitudes a Decimal operand meets that are unusual as ints: more digits than str() is allowed to write
+    # (sys.get_int_max_str_digits, 4300 by default), and bool (a subclass of int): the result is a quantity of the right
+    # dimension with a Decimal magnitude, as for every other int
+    import sys as _sys
+    U_ = m.Unit._by_name
+    odd_ints = [10 ** 5000, -(10 ** 4400) + 7, 3 ** 12000, True, False, 10 ** 4299]
+    if hasattr(_sys, "get_int_max_str_digits"):
+        ctx.extra["int_max_str_digits"] = _sys.get_int_max_str_digits()
+    for big in odd_ints:
+        for dec in (Decimal(2), Decimal("0.5"), Money("12.50"), Decimal("-3E+2")):
+            for opname, fn in binops + [("add", operator.add), ("sub", operator.sub)]:
+                for order in ("int-first", "decimal-first"):
+                    for plain in (False, True):
+                        ua, ub = U_["meter"], (U_["meter"] if opname in ("add", "sub") else U_["second"])
+                        a, b = Q(big, ua), (dec if plain and opname in ("mul", "truediv") else Q(dec, ub))
+                        if plain and opname in ("add", "sub"):
+                            continue
+                        if order == "decimal-first":
+                            a, b = (Q(dec, ub), (big if plain else Q(big, ua)))
+                        if opname == "truediv" and (b is False or getattr(b, "magnitude", 1) == 0):
+                            continue
+                        ctx.count("evaluations")
+                        ctx.count("unusual_ints_against_decimals")
+                        ctx.distinct(("odd-int", type(big).__name__, len(str(abs(int(big))) if abs(int(big)) < 10 ** 4000 else "long") , opname, order, plain))
+                        case = {"op": opname, "order": order, "int": "bool " + str(big) if isinstance(big, bool) else f"an int of {int(big).bit_length()} bits", "decimal": repr(dec)}
+                        try:
+                            res = fn(a, b)
+                        except (ZeroDivisionError, OverflowError) as e:
+                            ctx.count(f"unusual_ints_against_decimals_raised/{type(e).__name__}")
+                            continue
+                        except Exception as e:
+                            ctx.violation(f"C03:unusual-int-with-decimal:raised-{type(e).__name__}", f"{opname} ({order}) of {case['int']} and {dec!r} raised {type(e).__name__}: {str(e)[:120]}", case)
+                            continue
+                        want_dim = {"mul": ua.dimension * (m.Number if isinstance(b, (int, Decimal)) else b.unit.dimension) if order == "int-first" else a.unit.dimension * (m.Number if plain else ua.dimension),
+                                    "truediv": None, "add": ua.dimension, "sub": ua.dimension}[opname]
+                        if not isinstance(res, Q) or not isinstance(res.magnitude, Decimal) or (want_dim is not None and res.unit.dimension is not want_dim):
+                            ctx.violation("C03:unusual-int-with-decimal:wrong-result", f"{opname} ({order}) of {case['int']} and {dec!r} = a {type(getattr(res, 'magnitude', res)).__name__} magnitude in {getattr(res, 'unit', None)}", case)
 
     # every cell of the operator x operand-kind table must have been exercised
     missing = []
